@@ -71,7 +71,7 @@ def gen(prop, stream, tier, avoid):
         objs.append(spec)
     use_cont = kn.chance(0.6)
     nops = kn.pick([3, 4, 5, 6, 8, 10, 14, 20] + ([30, 40] if tier == "thorough" else []))
-    W = [("sample", 3), ("tessellate", 3), ("read", 4), ("edit", 1.5), ("quad", 0.7), ("export", 3), ("bad_tessellate", 0.5), ("subeval", 0.6), ("direct", 0.8), ("add_trim", 0.5)]
+    W = [("sample", 3), ("tessellate", 3), ("read", 4), ("edit", 1.5), ("quad", 0.7), ("export", 3), ("bad_tessellate", 0.5), ("subeval", 0.6), ("direct", 0.8), ("add_trim", 0.5), ("copy", 0.7)]
     if use_cont:
         W += [("cadd", 2.5), ("csample", 1), ("ctess", 2.5), ("cread", 2.5), ("ctessellator", 0.6)]
     W = [(k, w * kn.uniform(0.4, 1.4)) for k, w in W]
@@ -94,6 +94,9 @@ def gen(prop, stream, tier, avoid):
             op["force"] = rng.chance(0.5)
         elif k == "edit":
             op["seed"] = rng.randrange(1 << 30)
+        elif k == "copy":
+            op["how"] = rng.pick(["deepcopy", "deepcopy", "translate"])
+            op["vec"] = [rng.dyadic(-4, 4, 4) for _ in range(3)]
         elif k == "direct":
             op["spacing"] = rng.randrange(6)
             op["via"] = rng.pick(["class", "class", "function"])
@@ -571,6 +574,22 @@ def run(script, ctx):
             check_mesh(ctx, V, F, s, "surface #%d vertices/faces read with sample size %r" % (i, (nu, nv)), sig, sample=(nu, nv), trim=st.trim,
                        id_offset=V[0][0] if V else 0, expect_spacing=st.spacing)
             st.tess_before, st.dirty_since = True, False
+        elif k == "copy":
+            # a deep copy (or the out-of-place transform, which is one) joins the world as a surface of its own: from here on the
+            # two are tessellated, read and exported independently - neither may show the other's mesh
+            if len(world) >= 4:
+                ctx.ops_skipped += 1
+                continue
+            import copy as _copy
+            c = _copy.deepcopy(s) if op.get("how") != "translate" else g.operations.translate(s, op["vec"])
+            ns = SurfState(c, dict(st.spec))
+            ns.trim = st.trim
+            ns.tess_before, ns.dirty_since = st.tess_before, True
+            ns.spacing = None
+            world.append(ns)
+            ctx.probe("surface_copied:" + str(op.get("how")))
+            ctx.log("copy", i, op.get("how"))
+            ctx.ops_executed += 1
         elif k == "edit":
             rng = Rng(op["seed"], "edit")
             spec = st.spec
